@@ -106,12 +106,23 @@ def lean_sources_hash() -> str:
     return h.hexdigest()
 
 
-def lean_build():
-    """Build the library (all models, proofs, property theorems) and the compiled driver.
-    Returns (ok, log).  A no-op build takes ~0.3 s."""
+def lean_build(pid=None):
+    """Build what the check of property `pid` needs: its theorems (`PyGam.Props.<pid>`, with everything they
+    import), its driver module, and the compiled driver `pgdriver` (all driver modules).  Properties are isolated
+    from each other: if the compiled driver cannot be built (another property's driver module is broken) the
+    check falls back to interpreting its own driver (`lean --run Mains/<pid>.lean`).
+    Returns (ok, log, seconds).  A no-op build takes ~0.5 s."""
     t0 = time.time()
-    rc, out, err = _run(['lake', 'build', 'PyGam', 'pgdriver'], cwd=LEAN_DIR, timeout=3000)
-    return rc == 0, (out + err)[-4000:], time.time() - t0
+    targets = ['PyGam.Props.%s' % pid, 'PyGam.Drv.%s' % pid] if pid else ['PyGam']
+    rc, out, err = _run(['lake', 'build'] + targets, cwd=LEAN_DIR, timeout=3000)
+    log = (out + err)[-4000:]
+    if rc != 0:
+        return False, log, time.time() - t0
+    rc2, out2, err2 = _run(['lake', 'build', 'pgdriver'], cwd=LEAN_DIR, timeout=3000)
+    if rc2 != 0:
+        os.environ['PGDRIVER_INTERP'] = '1'
+        log += '\n[pgdriver build failed; using the interpreted per-property driver]\n' + (out2 + err2)[-1500:]
+    return True, log, time.time() - t0
 
 
 def strip_comments(src: str) -> str:
@@ -130,16 +141,34 @@ def prop_theorems(pid: str):
     return re.findall(r'^\s*(?:private\s+|protected\s+)?theorem\s+([A-Za-z_][A-Za-z0-9_\.\']*)', src, flags=re.M)
 
 
-def forbidden_tokens():
+def import_closure(pid):
+    """the project files (relative to lean/) that the theorems and the driver of `pid` are built from"""
+    seen, todo = set(), ['PyGam/Props/%s.lean' % pid, 'PyGam/Drv/%s.lean' % pid]
+    while todo:
+        f = todo.pop()
+        if f in seen or not os.path.exists(os.path.join(LEAN_DIR, f)):
+            continue
+        seen.add(f)
+        for m in re.findall(r'^\s*import\s+(PyGam[\w\.]*)', open(os.path.join(LEAN_DIR, f)).read(), flags=re.M):
+            todo.append(m.replace('.', '/') + '.lean')
+    return sorted(seen)
+
+
+def forbidden_tokens(pid=None):
+    """occurrences of sorry / admit / native_decide / bv_decide / axiom / ... outside comments, in the files the
+    property is built from (all project files when pid is None)"""
     hits = []
-    for root, dirs, files in os.walk(LEAN_DIR):
-        dirs[:] = [d for d in dirs if d != '.lake']
-        for fn in files:
-            if fn.endswith('.lean'):
-                p = os.path.join(root, fn)
-                src = strip_comments(open(p).read())
-                for m in FORBIDDEN.finditer(src):
-                    hits.append((os.path.relpath(p, LEAN_DIR), m.group(0).strip()))
+    if pid is not None:
+        files = import_closure(pid)
+    else:
+        files = []
+        for root, dirs, fs in os.walk(LEAN_DIR):
+            dirs[:] = [d for d in dirs if d != '.lake']
+            files += [os.path.relpath(os.path.join(root, fn), LEAN_DIR) for fn in fs if fn.endswith('.lean')]
+    for f in files:
+        src = strip_comments(open(os.path.join(LEAN_DIR, f)).read())
+        for m in FORBIDDEN.finditer(src):
+            hits.append((f, m.group(0).strip()))
     return hits
 
 
@@ -147,7 +176,14 @@ def audit(pid: str):
     """`#print axioms` on every theorem of Props/<pid>.lean.
     Returns dict(theorems=[...], bad={name: [axioms]}, forbidden=[...], cached=bool, ok=bool, log=str)."""
     names = prop_theorems(pid)
-    key = lean_sources_hash()
+    # cache key: the compiled theorem module (its .olean hash changes whenever the file or anything it imports changes)
+    key = None
+    oh = os.path.join(LEAN_DIR, '.lake', 'build', 'lib', 'lean', 'PyGam', 'Props', pid + '.olean.hash')
+    src = os.path.join(LEAN_DIR, 'PyGam', 'Props', pid + '.lean')
+    if os.path.exists(oh) and os.path.exists(src):
+        key = open(oh).read().strip() + ':' + hashlib.sha256(open(src, 'rb').read()).hexdigest()
+    else:
+        key = lean_sources_hash()
     cache_dir = os.path.join(LEAN_DIR, '.lake', 'audit')
     os.makedirs(cache_dir, exist_ok=True)
     cache = os.path.join(cache_dir, pid + '.json')
@@ -156,10 +192,12 @@ def audit(pid: str):
             c = json.load(open(cache))
             if c.get('key') == key:
                 c['cached'] = True
+                c['forbidden'] = forbidden_tokens(pid)      # cheap; always re-scanned
+                c['ok'] = bool(c.get('ok')) and not c['forbidden']
                 return c
         except Exception:
             pass
-    res = dict(key=key, theorems=names, bad={}, forbidden=forbidden_tokens(), cached=False, log='')
+    res = dict(key=key, theorems=names, bad={}, forbidden=forbidden_tokens(pid), cached=False, log='', files=import_closure(pid))
     if not names:
         res['ok'] = False
         res['log'] = 'no theorems found for ' + pid
